@@ -257,6 +257,31 @@ CLAIMED = {
              "svg geometry inherited).",
         technique="Lean 4 proof (well-founded mutual induction over the use-expansion recursion: loop-with-stack refines recursive renderer; prefix invariants; field algebra for the CTM) + differential correspondence on generated documents + independent specification evaluator and reify relation as oracle",
         ref="DESIGN.md §4 C03"),
+    "C14": dict(
+        text="Lean 4 theorems for every rule table, element and nesting. The library has no cascade structure: it concatenates rule "
+             "texts and the inline style in a fixed order into one string, splits at ';' and ':' and lets the last assignment win "
+             "(Model/Doc: styleText, applyStyle), and inherits by copying the parent's dictionary. Proved: the assembled text is, "
+             "declaration for declaration, the concatenation of the element's sources in the order universal < type < class/type.class "
+             "< id < inline (string-level: split distributes over the ';'-joined text); the specified value of any property is the "
+             "last declaration in that ordered list, else the presentation attribute; a later source overrides every earlier one and a "
+             "silent one changes nothing; inline beats everything; an id rule beats class, type and universal rules and the attribute; "
+             "currentColor is the element's own color else the inherited one; for every propagating property the computed value is the "
+             "element's own compiled value else the parent's (dictionary update over the erased copy), and an unset property is handed "
+             "to the children unchanged through g, svg, defs and use alike (only x/y/width/height are stripped); with the C03 refinement "
+             "(loop = recursive renderer, scope restored after every subtree) this gives nearest-ancestor inheritance at any depth. "
+             "Stroke scale factors are multiplicative over the accumulated transform (|det| algebra over an ordered field). The style "
+             "sheet scanner (comments, rule regex, comma lists, accumulation per selector), opacity folding and the whole pipeline are "
+             "tied to the code by differential execution; an independent CSS cascade evaluator (specificity, source order, inheritance, "
+             "currentColor, opacity) and the reified-width relation are evaluated on the implementation, exhaustively over source "
+             "subsets x selector kinds for one element and on random documents.",
+        note="Partial: the style-sheet scanner and stage B's paint (Color, opacity -> alpha, stroke-width lengths) are validated by "
+             "correspondence, not proved here (Color is C13). Known finding C14-class-order (an element with several classes takes "
+             "the rule of the class named last, not CSS's choice; attributed only when the Lean model reproduces every observed "
+             "paint). Interpretations: opacity replaces the colour's alpha; currentColor is resolved at the declaring element; rules "
+             "apply to elements after the style element. Two fix: commits (id vs class order; universal+type rule texts joined "
+             "without separator).",
+        technique="Lean 4 proof (string/list induction: split over joined text, last-assignment-wins fold; dictionary algebra; reuse of the C03 refinement) + exhaustive and random differential correspondence + independent cascade evaluator as oracle",
+        ref="DESIGN.md §4 C14"),
 }
 ALL = ["C%02d" % i for i in range(1, 21)]
 
